@@ -1,9 +1,9 @@
 """Run every property's quick check against every patch under a directory (seeded/ or twin dirs), in scratch copies.
-usage: python tools/crosscheck.py <dir-with-subdirs-containing-patch.diff> [--twins]"""
+usage: python tools/crosscheck.py <dir-with-subdirs-containing-patch.diff> [name filters]   (XRSA_PROPS=C05,C07 restricts the checks run)"""
 import os, shutil, subprocess, sys, tempfile, glob, json
 from concurrent.futures import ThreadPoolExecutor
 VERIF = os.path.dirname(os.path.dirname(os.path.abspath(__file__)))
-PROPS = ['C%02d' % i for i in range(1, 20)]
+PROPS = [p for p in ['C%02d' % i for i in range(1, 20)] if not os.environ.get('XRSA_PROPS') or p in os.environ['XRSA_PROPS'].split(',')]
 
 def run(args):
     d, prop, root = args
